@@ -643,6 +643,19 @@ class Inliner:
                 path.append((node, "value", None))
                 node = node.value
                 continue
+            if isinstance(node, (ast.List, ast.Tuple)) and node.elts:
+                k = 0
+                while k < len(node.elts) and _pure_arg(node.elts[k]):
+                    k += 1
+                if k >= len(node.elts) or isinstance(node.elts[k], ast.Starred):
+                    return None
+                path.append((node, "elts", k))
+                node = node.elts[k]
+                continue
+            if isinstance(node, ast.BinOp):
+                path.append((node, "left", None))
+                node = node.left
+                continue
             if isinstance(node, ast.Subscript):
                 path.append((node, "value", None))
                 node = node.value
